@@ -1,6 +1,6 @@
 fn main() {
     // Guard used by verification hooks (off by default).
-    println!("cargo:rustc-check-cfg=cfg(micro_http_verif)");
+    println!("cargo:rustc-check-cfg=cfg(micro_http_verif, values(none(), \"small\"))");
     #[cfg(not(target_family = "unix"))]
     std::compile_error!("This crate only supports Unix-like targets");
 }
